@@ -244,7 +244,7 @@ def run(ctx):
         assumptions=["numpy exp and float subtraction are within 1e-9 relative of the exact value (decisions closer than that are counted as undecided and skipped)",
                      "the recording Generator subclass observes every draw the sampler takes from the generator it was given",
                      "rows are identified by their period column (exact dyadic, injective)"],
-        trusted_extra=["Coq-Interval (verified interval arithmetic, BigZ primitive integers) through Base/RealEnc.v"],
+        trusted_extra=["Coq-Interval (verified interval arithmetic, BigZ primitive integers) through Base/RealEnc.v", "translators tools/py2v_reject.py (the four rejection sites), tools/py2v_batch.py (fail-closed)"],
     )
 
 
